@@ -858,7 +858,10 @@ class TermCanvas(Canvas):
                 x += 1
 
                 if x >= self.width and self.is_rotten_cursor:
-                    if y >= self.scrollregion_end:
+                    # the same decision as linefeed(): only the bottom margin scrolls
+                    if y >= self.height - 1 > self.scrollregion_end:
+                        pass
+                    elif y == self.scrollregion_end:
                         self.scroll()
                     else:
                         y += 1
